@@ -507,6 +507,23 @@ class Parser:
                 items.append(self.parse_expr())
             self.eat("]")
             return ("veclist", items)
+        if name in ("format", "write"):
+            self.eat("(")
+            target = None
+            if name == "write":
+                target = self.parse_expr()
+                self.eat(",")
+            k, v = self.eat()
+            if k != "str":
+                raise Unsupported(f"{name}! without a literal template")
+            args = []
+            while self.at(","):
+                self.eat()
+                if self.at(")"):
+                    break
+                args.append(self.parse_expr())
+            self.eat(")")
+            return ("format", v[1:-1], args, target)
         if name == "single_op_checked":
             self.eat("(")
             e = self.parse_expr()
